@@ -88,11 +88,13 @@ VARIABLES
   vj,         \* journal as read by rollbackJournal
   vpos, vtab, vknown, sel,
   \* ---- scenario, bookkeeping ----
-  scn, bef, aft, acked, crashes, k, ks, hist
+  scn, bef, aft, acked, crashes, k, ks,
+  ltx0,       \* the transaction files that were on disk when the process died last
+  hist
 
 dur  == <<dirx, dbx, dbf, jr, wal, ltx, shm>>
 vol  == <<pc, ctx, cur, todo, tset, rmq, vj, vpos, vtab, vknown, sel>>
-book == <<scn, bef, aft, acked, crashes, k, ks>>
+book == <<scn, bef, aft, acked, crashes, k, ks, ltx0>>
 vars == <<dur, vol, book, hist>>
 view == <<dur, vol, book>>
 
@@ -134,34 +136,40 @@ Scenarios ==
   \cup (IF "hotj" \in Ops THEN {S("hotj", t[1], t[2], t[3], fin, <<>>, "sqlite", FALSE) : t \in TxShapes, fin \in {"DELETE", "KEEP"}} ELSE {})
 
 E1(n) == [min |-> 1, max |-> 1, commit |-> n, pages |-> Img(n, 1), post |-> Img(n, 1), wsalt |-> 0, wend |-> 0]
-\* a chain of WAL transactions over sizes ns: transaction i takes the database from ns[i] to ns[i+1] pages
-WM(ns, i) == {1} \cup ((ns[i] + 1)..ns[i + 1])
+\* a rollback-journal history of j transactions on n pages: the first one writes every page, every later one
+\* only page 1 - so the NEWEST transaction file is an incremental one and cannot repair other pages
+ChainImg(n, t0, j) == [p \in 1..n |-> IF p = 1 THEN C(t0 + j, n) ELSE C(t0 + 1, 0)]
+ChainLtx(n, t0, i) == [min |-> i, max |-> i, commit |-> n,
+                       pages |-> IF i = 1 THEN ChainImg(n, t0, 1) ELSE [p \in {1} |-> C(t0 + i, n)],
+                       post |-> ChainImg(n, t0, i), wsalt |-> 0, wend |-> 0]
+Chain(n, t0, j) == {ChainLtx(n, t0, i) : i \in 1..j}
+\* a chain of WAL transactions over sizes ns: transaction i takes the database from ns[i] to ns[i+1] pages; it
+\* writes page 1, the new pages and (every second one) the last page, so that consecutive ones differ
+WM(ns, i) == {1} \cup ((ns[i] + 1)..ns[i + 1]) \cup (IF i % 2 = 0 THEN {ns[i + 1]} ELSE {})
 RECURSIVE WImg(_, _)
 WImg(ns, i) == IF i = 0 THEN Img(ns[1], 1) ELSE After(WImg(ns, i - 1), ns[i + 1], WM(ns, i), 1 + i)
 WTx(ns, i) == [pages |-> TxPages(ns[i + 1], WM(ns, i), 1 + i), commit |-> ns[i + 1]]
 WLtx(ns, i) == [min |-> 1 + i, max |-> 1 + i, commit |-> ns[i + 1], pages |-> TxPages(ns[i + 1], WM(ns, i), 1 + i),
                 post |-> WImg(ns, i), wsalt |-> 1, wend |-> i]
-\* the history of a node that went its own way: file j-j rewrote every page
-FLtx(nb, j) == [min |-> j, max |-> j, commit |-> nb, pages |-> Img(nb, 10 + j), post |-> Img(nb, 10 + j), wsalt |-> 0, wend |-> 0]
 ForkLen(rk) == CASE rk = "fresh" -> 0 [] rk = "behind" -> 1 [] rk = "equal" -> 2 [] rk = "ahead" -> 3
 Snap(na) == [min |-> 1, max |-> 2, commit |-> na, pages |-> Img(na, 20), post |-> Img(na, 20), wsalt |-> 0, wend |-> 0]
 DropLtx(t) == [min |-> t, max |-> t, commit |-> 0, pages |-> <<>>, post |-> <<>>, wsalt |-> 0, wend |-> 0]
 
 Setup(s) ==
   CASE s.op = "inc" ->
-         LET B == Img(s.nb, 1)  A == After(B, s.na, s.M, 2)
-         IN [dbx |-> TRUE, dbf |-> B, wal |-> NoWal, ltx |-> {E1(s.nb)}, shm |-> TRUE, pc |-> "s_create",
-             cur |-> [min |-> 2, max |-> 2, commit |-> s.na, pages |-> TxPages(s.na, s.M, 2), post |-> A, wsalt |-> 0, wend |-> 0],
-             bef |-> [t |-> 1, img |-> B], aft |-> [t |-> 2, img |-> A], acked |-> FALSE]
+         LET B == ChainImg(s.nb, 0, 2)  A == After(B, s.na, s.M, 9)
+         IN [dbx |-> TRUE, dbf |-> B, wal |-> NoWal, ltx |-> Chain(s.nb, 0, 2), shm |-> TRUE, pc |-> "s_create",
+             cur |-> [min |-> 3, max |-> 3, commit |-> s.na, pages |-> TxPages(s.na, s.M, 9), post |-> A, wsalt |-> 0, wend |-> 0],
+             bef |-> [t |-> 2, img |-> B], aft |-> [t |-> 3, img |-> A], acked |-> FALSE]
     [] s.op \in {"snap", "restore"} ->
          LET tr == ForkLen(s.rk)
-             B == IF tr = 0 THEN <<>> ELSE Img(s.nb, 10 + tr)
-         IN [dbx |-> tr > 0, dbf |-> B, wal |-> NoWal, ltx |-> {FLtx(s.nb, j) : j \in 1..tr}, shm |-> tr > 0,
+             B == IF tr = 0 THEN <<>> ELSE ChainImg(s.nb, 10, tr)
+         IN [dbx |-> tr > 0, dbf |-> B, wal |-> NoWal, ltx |-> Chain(s.nb, 10, tr), shm |-> tr > 0,
              pc |-> IF s.op = "restore" THEN "j_open" ELSE IF tr = 0 THEN "n_mkdir" ELSE "s_create", cur |-> Snap(s.na),
              bef |-> [t |-> tr, img |-> B], aft |-> PosOf(Snap(s.na)), acked |-> FALSE]
     [] s.op = "rdrop" ->
-         [dbx |-> TRUE, dbf |-> Img(s.nb, 1), wal |-> NoWal, ltx |-> {E1(s.nb)}, shm |-> TRUE, pc |-> "s_create", cur |-> DropLtx(2),
-          bef |-> [t |-> 1, img |-> Img(s.nb, 1)], aft |-> [t |-> 2, img |-> <<>>], acked |-> FALSE]
+         [dbx |-> TRUE, dbf |-> ChainImg(s.nb, 0, 2), wal |-> NoWal, ltx |-> Chain(s.nb, 0, 2), shm |-> TRUE, pc |-> "s_create", cur |-> DropLtx(3),
+          bef |-> [t |-> 2, img |-> ChainImg(s.nb, 0, 2)], aft |-> [t |-> 3, img |-> <<>>], acked |-> FALSE]
     [] s.op = "ckpt" ->
          LET W == Len(s.ns) - 1
          IN [dbx |-> TRUE, dbf |-> WImg(s.ns, 0), wal |-> [ex |-> TRUE, salt |-> 1, txs |-> [i \in 1..W |-> WTx(s.ns, i)]],
@@ -173,17 +181,18 @@ Setup(s) ==
           ltx |-> {E1(s.ns[1]), WLtx(s.ns, 1)}, shm |-> TRUE, pc |-> "w_frames", cur |-> WLtx(s.ns, 2),
           bef |-> [t |-> 2, img |-> WImg(s.ns, 1)], aft |-> [t |-> 3, img |-> WImg(s.ns, 2)], acked |-> FALSE]
     [] s.op = "pdrop" ->
-         LET W == Len(s.ns) - 1
-         IN [dbx |-> TRUE, dbf |-> WImg(s.ns, 0),
-             wal |-> IF W = 0 THEN NoWal ELSE [ex |-> TRUE, salt |-> 1, txs |-> <<WTx(s.ns, 1)>>],
-             ltx |-> {E1(s.ns[1])} \cup {WLtx(s.ns, i) : i \in 1..W}, shm |-> W > 0, pc |-> "d_create", cur |-> DropLtx(2 + W),
-             bef |-> [t |-> 1 + W, img |-> WImg(s.ns, W)], aft |-> [t |-> 2 + W, img |-> <<>>], acked |-> FALSE]
+         IF s.wk
+         THEN [dbx |-> TRUE, dbf |-> WImg(s.ns, 0), wal |-> [ex |-> TRUE, salt |-> 1, txs |-> <<WTx(s.ns, 1)>>],
+               ltx |-> {E1(s.ns[1]), WLtx(s.ns, 1)}, shm |-> TRUE, pc |-> "d_create", cur |-> DropLtx(3),
+               bef |-> [t |-> 2, img |-> WImg(s.ns, 1)], aft |-> [t |-> 3, img |-> <<>>], acked |-> FALSE]
+         ELSE [dbx |-> TRUE, dbf |-> ChainImg(s.nb, 0, 2), wal |-> NoWal, ltx |-> Chain(s.nb, 0, 2), shm |-> FALSE, pc |-> "d_create",
+               cur |-> DropLtx(3), bef |-> [t |-> 2, img |-> ChainImg(s.nb, 0, 2)], aft |-> [t |-> 3, img |-> <<>>], acked |-> FALSE]
     [] s.op = "hotj" ->
-         LET B == Img(s.nb, 1)
-             t0 == IF s.nb = 0 THEN 0 ELSE 1
-             A == After(B, s.na, s.M, 2)
-         IN [dbx |-> TRUE, dbf |-> B, wal |-> NoWal, ltx |-> IF s.nb = 0 THEN {} ELSE {E1(s.nb)}, shm |-> FALSE, pc |-> "p_journal",
-             cur |-> [min |-> t0 + 1, max |-> t0 + 1, commit |-> s.na, pages |-> TxPages(s.na, s.M, 2), post |-> A, wsalt |-> 0, wend |-> 0],
+         LET B == IF s.nb = 0 THEN <<>> ELSE ChainImg(s.nb, 0, 2)
+             t0 == IF s.nb = 0 THEN 0 ELSE 2
+             A == After(B, s.na, s.M, 9)
+         IN [dbx |-> TRUE, dbf |-> B, wal |-> NoWal, ltx |-> IF s.nb = 0 THEN {} ELSE Chain(s.nb, 0, 2), shm |-> FALSE, pc |-> "p_journal",
+             cur |-> [min |-> t0 + 1, max |-> t0 + 1, commit |-> s.na, pages |-> TxPages(s.na, s.M, 9), post |-> A, wsalt |-> 0, wend |-> 0],
              bef |-> [t |-> t0, img |-> B], aft |-> [t |-> t0 + 1, img |-> A], acked |-> FALSE]
 
 Init ==
@@ -194,11 +203,11 @@ Init ==
         /\ pc = i.pc /\ ctx = scn.cx /\ cur = i.cur /\ bef = i.bef /\ aft = i.aft /\ acked = i.acked
         /\ vpos = i.bef /\ vtab = i.dbf /\ vknown = (i.dbx /\ i.dbf # <<>>)
   /\ todo = <<>> /\ tset = {} /\ rmq = <<>> /\ vj = NoJr /\ sel = NoLtx
-  /\ crashes = 0 /\ k = 0 /\ ks = <<>> /\ hist = <<>>
+  /\ crashes = 0 /\ k = 0 /\ ks = <<>> /\ ltx0 = {} /\ hist = <<>>
 
 (* ====================== step bookkeeping ====================== *)
 Tick(label) == k' = k + 1 /\ ks' = ks /\ crashes' = crashes /\ hist' = Append(hist, label)
-             /\ UNCHANGED <<scn, bef, aft>>
+             /\ UNCHANGED <<scn, bef, aft, ltx0>>
 Live == crashes = 0
 \* where a sub-machine continues
 AfterRollback == "c_open"
@@ -508,6 +517,7 @@ Crash ==
   \* recovered states of two orders coincide, and every crash point must be emitted)
   /\ crashes' = crashes + 1 /\ k' = 0 /\ hist' = Append(hist, "CRASH")
   /\ ks' = Append(ks, [k |-> k, done |-> IF pc = "c_page" THEN (DOMAIN cur.pages) \ tset ELSE {}])
+  /\ ltx0' = ltx
   /\ UNCHANGED <<dur, scn, bef, aft, acked>>
 
 Next == \/ SCreate \/ SRename \/ SRemove
@@ -527,8 +537,8 @@ WalLeft == wal.ex /\ wal.txs # <<>>
 \* restarting succeeds (and a live replica never stops itself)
 C05_RestartSucceeds == pc # "failed"
 \* the position is the one named by a newest transaction file on disk
-C05_PosOfNewestLTX == Recovered => IF ltx = {} THEN vpos = Pos0
-                                   ELSE \E f \in ltx : f.max = MaxTx(ltx) /\ vpos = PosOf(f)
+C05_PosOfNewestLTX == Recovered => IF ltx0 = {} THEN vpos = Pos0
+                                   ELSE \E f \in ltx0 : f.max = MaxTx(ltx0) /\ vpos = PosOf(f)
 \* which is the position before or the one after the interrupted operation
 C05_BeforeOrAfter == Recovered => vpos \in {bef, aft}
 \* image, size and checksum are those of that position, never a mixture
